@@ -328,7 +328,9 @@ class _Gen:
             values.append(v)
         d = {"kind": "enum", "name": name, "type": typ, "values": values}
         c = self.comment()
-        if c:
+        if not values and self.boolean(0.4):
+            c = "" if self.boolean(0.5) else (c or "reserved")      # a placeholder enum, documented or with an empty <comment/>
+        if c is not None:
             d["comment"] = c
         return d
 
@@ -929,7 +931,7 @@ def _gen_simple_body(self, dir_):
 
     def member():
         k = self.weighted([("int", 6), ("bool", 3), ("enum", 3 if enums else 0), ("str", 2),
-                           ("struct", 2 if fixed_structs else 0), ("array", 2)])
+                           ("struct", 2 if fixed_structs else 0), ("array", 4)])
         if k == "array":
             # a fixed number of fixed-size elements (zero of them included) keeps the struct fixed-size
             return {"tag": "array", "name": _uniq_name(self.draw, self.field_pool, names, "f"),
